@@ -5,6 +5,7 @@ import (
 	"go/constant"
 	"go/token"
 	"go/types"
+	"ivgsa/internal/cfgx"
 	"sort"
 	"strings"
 
@@ -84,6 +85,7 @@ type Interp struct {
 
 // Frame is one (inlined) function activation.
 type Frame struct {
+	pdom     *cfgx.Info
 	Fn       *ssa.Function
 	ID       string
 	Parent   *Frame
@@ -541,6 +543,34 @@ func (in *Interp) CallFunction(fn *ssa.Function, args, bindings []*Term, m *Mem,
 	return res, out, fr
 }
 
+// controlEquivalentDominator returns the nearest dominator of blk that blk post-dominates (over executable edges,
+// panics and non-termination aside), or nil.
+func (fr *Frame) controlEquivalentDominator(blk *ssa.BasicBlock) *ssa.BasicBlock {
+	if fr.pdom == nil {
+		fr.pdom = cfgx.New(fr.Fn, func(from, to *ssa.BasicBlock) bool { return fr.edgeExec[[2]int{from.Index, to.Index}] })
+	}
+	for d := blk.Idom(); d != nil; d = d.Idom() {
+		if fr.inAnyLoopNotContaining(d, blk) {
+			continue
+		}
+		if fr.pdom.PostDominates(blk.Index, d.Index) {
+			return d
+		}
+	}
+	return nil
+}
+
+// inAnyLoopNotContaining: d lies in a loop that blk is not part of (then "reached when d is" would confuse
+// iterations).
+func (fr *Frame) inAnyLoopNotContaining(d, blk *ssa.BasicBlock) bool {
+	for h := range fr.headers {
+		if fr.inLoop(h, d.Index) && !fr.inLoop(h, blk.Index) {
+			return true
+		}
+	}
+	return false
+}
+
 func instrOrdinal(site ssa.Instruction) int {
 	b := site.Block()
 	if b == nil {
@@ -704,10 +734,16 @@ func (fr *Frame) evalPass(m0 *Mem) {
 			} else {
 				r := Or(fw...)
 				if len(r.Key()) > 8000 {
-					r = Atom(fmt.Sprintf("reach#%s#%d", fr.ID, b), types.Typ[types.Bool])
-					// keep what the immediate dominator already guarantees
-					if d := blk.Idom(); d != nil && fr.reach[d.Index] != nil {
-						r = And(fr.reach[d.Index], r)
+					// too large to keep. If the block is control-equivalent to one of its dominators (it post-dominates
+					// it: every terminating path from there comes through here), it is reached exactly when that
+					// dominator is; otherwise an opaque atom, keeping what the immediate dominator guarantees.
+					if d := fr.controlEquivalentDominator(blk); d != nil && fr.reach[d.Index] != nil && len(fr.reach[d.Index].Key()) <= 8000 {
+						r = fr.reach[d.Index]
+					} else {
+						r = Atom(fmt.Sprintf("reach#%s#%d", fr.ID, b), types.Typ[types.Bool])
+						if d := blk.Idom(); d != nil && fr.reach[d.Index] != nil {
+							r = And(fr.reach[d.Index], r)
+						}
 					}
 				}
 				fr.reach[b] = r
@@ -1569,7 +1605,9 @@ func (in *Interp) havoc(fr *Frame, site ssa.Instruction, m *Mem, args []*Term) {
 }
 
 // Havoc forgets everything reachable through pointer arguments (exported for hooks).
-func (in *Interp) Havoc(fr *Frame, site ssa.Instruction, m *Mem, args []*Term) { in.havoc(fr, site, m, args) }
+func (in *Interp) Havoc(fr *Frame, site ssa.Instruction, m *Mem, args []*Term) {
+	in.havoc(fr, site, m, args)
+}
 
 // ---- calls ----
 
